@@ -4,6 +4,7 @@ package main
 // and the uninterpreted model of encoding/pem.Decode.
 
 import (
+	"encoding/pem"
 	"fmt"
 	"go/types"
 )
@@ -123,9 +124,9 @@ func init() {
 		}
 		return e.deepEq(x.T, x.V, y.V, 0)
 	}
-	// encoding/pem.Decode(data) (p *Block, rest []byte): uninterpreted.  Whether data holds a PEM
-	// block is a free boolean; the decoded bytes are free bytes of a harness-chosen length
-	// (vsym.PEMLen, default 3); same input object => same answer within a path.
+	// encoding/pem.Decode(data) (p *Block, rest []byte).  Values made by vsym.PEMOf(der) decode to
+	// der; concrete data goes through the real decoder; other symbolic data shorter than any
+	// PEM block is not PEM.
 	intrinsics["encoding/pem.Decode"] = func(fr *frame, a []Value) Value {
 		e := fr.e
 		data := a[0].(SliceVal)
@@ -133,32 +134,52 @@ func init() {
 		if data.Obj == nil {
 			return Tuple{NilPtr{}, data}
 		}
-		if b, ok := e.concBytes(data); ok && len(b) < 11 {
-			return Tuple{NilPtr{}, data} // shorter than "-----BEGIN " : never a PEM block
-		}
-		p.uniq++
-		is := e.symScalar(fmt.Sprintf("pem.is#%d", p.uniq), 8)
-		e.Assume(e.tb.Ule(is, e.tb.Const(8, 1)))
-		if !e.Decide(e.tb.Eq(is, e.tb.Const(8, 1))) {
-			return Tuple{NilPtr{}, data}
-		}
-		n := p.pemLen
-		if n == 0 {
-			n = 3
-		}
-		der := e.symBytes(fmt.Sprintf("pem.der#%d", p.uniq), e.tb.I64(int64(n)), uint64(n))
-		BT := e.namedType("encoding/pem", "Block")
-		blk := e.zero(BT).(Struct)
-		st := BT.Underlying().(*types.Struct)
-		for i := 0; i < st.NumFields(); i++ {
-			switch st.Field(i).Name() {
-			case "Type":
-				blk[i] = "CERTIFICATE"
-			case "Bytes":
-				blk[i] = der
+		mkBlock := func(der SliceVal) Value {
+			BT := e.namedType("encoding/pem", "Block")
+			blk := e.zero(BT).(Struct)
+			st := BT.Underlying().(*types.Struct)
+			for i := 0; i < st.NumFields(); i++ {
+				switch st.Field(i).Name() {
+				case "Type":
+					blk[i] = "CERTIFICATE"
+				case "Bytes":
+					blk[i] = der
+				case "Headers":
+					blk[i] = &MapVal{ents: map[string]*mapEnt{}}
+				}
 			}
+			var bv Value = blk
+			return &bv
 		}
-		var bv Value = blk
-		return Tuple{&bv, e.nilSlice()}
+		if der, ok := p.pemOf[data.Obj]; ok && data.Off.IsConst() && data.Off.C == 0 && data.Len == data.Obj.size {
+			return Tuple{mkBlock(der), e.nilSlice()}
+		}
+		if b, ok := e.concBytes(data); ok {
+			blk, rest := pem.Decode(b)
+			if blk == nil {
+				return Tuple{NilPtr{}, e.concSlice(rest)}
+			}
+			return Tuple{mkBlock(e.concSlice(blk.Bytes)), e.concSlice(rest)}
+		}
+		// assumption (listed in the evidence): symbolic raw data is not PEM text; PEM inputs are
+		// introduced with vsym.PEMOf
+		return Tuple{NilPtr{}, data}
+	}
+	intrinsics[vsymPath+".PEMOf"] = func(fr *frame, a []Value) Value {
+		e := fr.e
+		der := a[0].(SliceVal)
+		if !der.Len.IsConst() {
+			e.unsupported("vsym.PEMOf of symbolic-length data")
+		}
+		n := len(pem.EncodeToMemory(&pem.Block{Type: "CERTIFICATE", Bytes: make([]byte, der.Len.C)}))
+		e.path.uniq++
+		txt := e.symBytes(fmt.Sprintf("pemtext#%d", e.path.uniq), e.tb.I64(int64(n)), uint64(n))
+		// the text is not an input of the replay: natively it is computed from der
+		e.path.inputs = e.path.inputs[:len(e.path.inputs)-1]
+		if e.path.pemOf == nil {
+			e.path.pemOf = map[*ByteObj]SliceVal{}
+		}
+		e.path.pemOf[txt.Obj] = e.freeze(der, "der")
+		return txt
 	}
 }
